@@ -8,6 +8,7 @@ from .. import refmodel as rm
 from .. import spec as sp
 
 ID = 'C10'
+ANCHOR_FILES = ['solver/fileIO.py', 'solver/model.py']
 LEVEL = 'exploration'
 NEEDS_DEPS = True
 EVAL_COUNTER = 'files_loaded'
